@@ -474,6 +474,107 @@ func c09Deep(c *vk.Ctx, i int) {
 	}
 }
 
+// c09EmptyKey: a present but EMPTY text key is a key ("" sorts before every other text), not a missing
+// one: documents with k = "", with other keys and without the field, all four direction / missing
+// placements, windows over the whole ranking.
+func c09EmptyKey(c *vk.Ctx, i int) {
+	r := rand.New(rand.NewSource(vk.SubSeed(c.Seed, fmt.Sprintf("c09-empty-%d", i))))
+	w, err := bluge.OpenWriter(bx.NoMerge(bluge.InMemoryOnlyConfig()))
+	if err != nil {
+		return
+	}
+	defer w.Close()
+	type dd struct {
+		id      string
+		k       string
+		missing bool
+		hit     int
+	}
+	var docs []dd
+	total := 12 + r.Intn(20)
+	b := bluge.NewBatch()
+	for x := 0; x < total; x++ {
+		d := dd{id: fmt.Sprintf("e%03d", x), hit: x}
+		doc := bluge.NewDocument(d.id).AddField(bluge.NewKeywordField("all", "x"))
+		switch r.Intn(4) {
+		case 0:
+			d.missing = true
+		case 1:
+			d.k = ""
+			doc.AddField(bluge.NewKeywordField("k", "").Sortable())
+		default:
+			d.k = []string{"a", "b", "ab", "c"}[r.Intn(4)]
+			doc.AddField(bluge.NewKeywordField("k", d.k).Sortable())
+		}
+		docs = append(docs, d)
+		b.Update(doc.ID(), doc)
+		if x%5 == 4 {
+			_ = w.Batch(b)
+			b = bluge.NewBatch()
+		}
+	}
+	_ = w.Batch(b)
+	rd, err := w.Reader()
+	if err != nil {
+		return
+	}
+	defer rd.Close()
+	for _, desc := range []bool{false, true} {
+		for _, mfirst := range []bool{false, true} {
+			sorted := append([]dd(nil), docs...)
+			sort.SliceStable(sorted, func(a, b int) bool {
+				x, y := sorted[a], sorted[b]
+				if x.missing || y.missing {
+					if x.missing && y.missing {
+						return x.hit < y.hit
+					}
+					return x.missing == mfirst
+				}
+				if x.k != y.k {
+					return (x.k < y.k) != desc
+				}
+				return x.hit < y.hit
+			})
+			s := search.SortBy(search.Field("k"))
+			name := "asc"
+			if desc {
+				s.Desc()
+				name = "desc"
+			}
+			if mfirst {
+				s.MissingFirst()
+				name += "-missing-first"
+			} else {
+				name += "-missing-last"
+			}
+			for _, p := range [][2]int{{total, 0}, {5, 0}, {5, total - 6}, {11, 3}} {
+				n, from := p[0], p[1]
+				hits, err := bx.SearchIDs(rd, bluge.NewTopNSearch(n, bluge.NewTermQuery("x").SetField("all")).SetFrom(from).SortByCustom(search.SortOrder{s}))
+				c.Eval(1)
+				if err != nil {
+					continue
+				}
+				lo, hi := from, from+n
+				if hi > total {
+					hi = total
+				}
+				var want []string
+				for _, d := range sorted[lo:hi] {
+					want = append(want, d.id)
+				}
+				got := idsOf(hits)
+				c.Event("empty_string_key_requests", 1)
+				if fmt.Sprint(got) != fmt.Sprint(want) {
+					c.Violate("empty-string-key-misplaced:"+name, fmt.Sprintf("sort by k %s, n=%d from=%d over documents with k in {\"\", a, ab, b, c} or without k: want %v got %v", name, n, from, want, got),
+						map[string]interface{}{"docs": docs, "order": name, "n": n, "from": from, "want": want, "got": got})
+				} else {
+					c.DistinctHash(vk.Hash64(fmt.Sprintf("emptykey|%s|%d|%d", name, bucket(n), bucket(from))))
+				}
+			}
+		}
+	}
+}
+
 func clipIDs(l []string) []string {
 	if len(l) > 6 {
 		return l[:6]
@@ -504,6 +605,9 @@ func runC09(c *vk.Ctx) {
 	wg.Wait()
 	for i := 0; i < c.Pick(2, 24); i++ {
 		c09Deep(c, i)
+	}
+	for i := 0; i < c.Pick(20, 400); i++ {
+		c09EmptyKey(c, i)
 	}
 	c.Require("deep_requests_beyond_the_prealloc_cap_with_more_matches", 10)
 	c.Require("topn_store_slice", 50)
